@@ -98,6 +98,58 @@ class RecBytesIO(_io.BytesIO):
         return d
 
 
+class _RawPipe(_io.RawIOBase):
+    """a non-seekable raw byte source (what a pipe, a FIFO, a serial port or socket.makefile() gives)"""
+
+    def __init__(self, data):
+        super().__init__()
+        self._d = bytes(data)
+        self._p = 0
+
+    def readable(self):
+        return True
+
+    def seekable(self):
+        return False
+
+    def readinto(self, b):
+        n = min(len(b), len(self._d) - self._p)
+        b[:n] = self._d[self._p:self._p + n]
+        self._p += n
+        return n
+
+
+class RecPipe(_io.BufferedReader):
+    """a real io.BufferedReader over a non-seekable source: has tell()/seek() attributes that raise when called"""
+
+    def __init__(self, data, events, maxcalls=None):
+        super().__init__(_RawPipe(data), buffer_size=16)
+        self.data = bytes(data)
+        self.events = events
+        self.pos = 0
+        self.calls = 0
+        self.maxcalls = maxcalls if maxcalls is not None else 6 * len(data) + 64
+
+    def _tick(self):
+        self.calls += 1
+        if self.calls > self.maxcalls:
+            raise HangGuard()
+
+    def read(self, n=-1):
+        self._tick()
+        d = super().read(n)
+        self.pos += len(d)
+        self.events.append({"t": "read", "n": n, "got": len(d), "a": 0, "b": 0, "p": "", "fam": ""})
+        return d
+
+    def readline(self, *a):
+        self._tick()
+        d = super().readline(*a)
+        self.pos += len(d)
+        self.events.append({"t": "readline", "n": 0, "got": len(d), "a": 0, "b": 0, "p": "", "fam": ""})
+        return d
+
+
 def family(ex):
     import pynmeagps.exceptions as nme
     import pyrtcm.exceptions as rte
@@ -155,7 +207,12 @@ def run_reader(data, filt=7, quit=1, parsing=True, handler=True, msgmode=0, vali
     from pyubx2 import UBXReader
 
     events = []
-    stream = RecBytesIO(data, events) if kind == "bytesio" and not bursts else RecStream(data, events, bursts=bursts)
+    if kind == "bytesio" and not bursts:
+        stream = RecBytesIO(data, events)
+    elif kind == "pipe" and not bursts:
+        stream = RecPipe(data, events)
+    else:
+        stream = RecStream(data, events, bursts=bursts)
     errs = []
 
     def on_error(err):
